@@ -29,6 +29,9 @@ VALS = {
 CANON_TYPES = (bool, int, float, complex, str, bytes, date, datetime, list, dict, tuple)
 
 
+LONG = [False]      # thorough tier: operand vectors of length 3 as well
+
+
 def pool(kinds=None):
     """(label, values) operand vectors."""
     out = [("empty", [])]
@@ -36,7 +39,11 @@ def pool(kinds=None):
         if kinds and k not in kinds:
             continue
         out += [(f"{k}1", [a]), (f"{k}2", [a, b]), (f"{k}N", [a, None]), (f"N{k}", [None, b])]
+        if LONG[0]:
+            out += [(f"{k}3", [a, b, a]), (f"{k}3N", [a, None, b]), (f"N{k}3", [None, a, b]), (f"{k}3NN", [a, None, None])]
     out += [("none1", [None]), ("none2", [None, None])]
+    if LONG[0]:
+        out += [("none3", [None, None, None])]
     return out
 
 
@@ -320,9 +327,10 @@ def run_unit(unit):
 
 
 def check(ctx):
+    LONG[0] = ctx.thorough
     units = [("bin", o) for o in BIN] + [("misc", w) for w in ("unary", "concat", "assign", "tableops", "methods")]
     agg = core.merge_all(core.pmap(run_unit, units))
-    agg.notes["bound"] = "operand vectors of length 0..2 over 10 kinds with None first/last/all; see RULE"
+    agg.notes["bound"] = f"operand vectors of length 0..{3 if ctx.thorough else 2} over 10 kinds with None first/last/all; see RULE"
     agg.notes["exhaustive"] = True
     return agg
 
